@@ -312,8 +312,10 @@ class Check:
         ev = {"property_id": self.pid, "tier": self.tier, "seed": self.seed, "level": level, "coverage": cov,
               "assumptions": self.assume, "wall_s": round(time.time() - self.t0, 2), "lock_wait_s": self.lock_wait_s, "violations": self.violations,
               "known_findings_printed": self.known_printed}
-        os.makedirs(os.path.join(VERIF, "evidence"), exist_ok=True)
-        with open(os.path.join(VERIF, "evidence", "%s.json" % self.pid), "w") as fh:
+        # runs against a deliberately modified /repo (bin/seed_eval sets VERIF_EVIDENCE_DIR) must not overwrite the evidence of /repo itself
+        evdir = os.environ.get("VERIF_EVIDENCE_DIR") or os.path.join(VERIF, "evidence")
+        os.makedirs(evdir, exist_ok=True)
+        with open(os.path.join(evdir, "%s.json" % self.pid), "w") as fh:
             json.dump(ev, fh, indent=1, default=str)
         shutil.rmtree(self.scratch, ignore_errors=True)
         try:
